@@ -412,10 +412,15 @@ func (env *SpecEnv) call(n *ECall) SVal {
 		return gInt(env.st().bigGet(v.V.T))
 	case "fresh":
 		v := env.eval(n.Args[0])
-		if env.allocBefore == nil {
-			unsupp("fresh() outside a postcondition")
+		ab := env.allocBefore
+		if ab == nil {
+			ab = env.pre.allocTerm() // loop invariants: allocated since function entry
 		}
-		return gBool(Ge(v.V.T, env.allocBefore))
+		r := v.V.T
+		if r == nil && len(v.V.Fs) == 4 {
+			r = v.V.Fs[0].T // slice: its backing array
+		}
+		return gBool(Ge(r, ab))
 	case "allocated":
 		v := env.eval(n.Args[0])
 		return gBool(And(Gt(v.V.T, IntLit(0)), Lt(v.V.T, env.pre.allocTerm())))
